@@ -122,6 +122,27 @@ def r02_1(ctx: Ctx, rep: Report) -> None:  # noqa: C901
                                 v = n.value
                                 if isinstance(v, ast.Name) and len(locals_.get(v.id, [])) == 1:
                                     v = locals_[v.id][0]  # built into a local first (validated), stored afterwards
+                                if isinstance(v, ast.Name) and v.id in f.params and f.name.startswith("_") and f.name != "__init__":
+                                    # stored by a private helper that is handed the child (`self._set_wildcard(type_, w)`): the
+                                    # construction sites are where the callers build what they hand over
+                                    for g_ in c.all_funcs():
+                                        glocals = {}
+                                        for y_ in own_nodes(g_.node):
+                                            if isinstance(y_, (ast.Assign, ast.AnnAssign)) and y_.value is not None:
+                                                ty_ = y_.targets[0] if isinstance(y_, ast.Assign) else y_.target
+                                                if isinstance(ty_, ast.Name):
+                                                    glocals.setdefault(ty_.id, []).append(y_.value)
+                                        for y_ in own_nodes(g_.node):
+                                            if isinstance(y_, ast.Call) and isinstance(y_.func, ast.Attribute) and src(y_.func.value) == "self" and y_.func.attr == f.name:
+                                                ps_ = [p_ for p_ in f.params if p_ not in ("self", "cls")]
+                                                a_ = next((k_.value for k_ in y_.keywords if k_.arg == v.id), None)
+                                                if a_ is None and v.id in ps_ and ps_.index(v.id) < len(y_.args):
+                                                    a_ = y_.args[ps_.index(v.id)]
+                                                if isinstance(a_, ast.Name) and len(glocals.get(a_.id, [])) == 1:
+                                                    a_ = glocals[a_.id][0]
+                                                if isinstance(a_, ast.Call):
+                                                    ctor_sites.append((g_, a_))
+                                    continue
                                 if not isinstance(v, ast.Call):
                                     continue
                                 if f.name == "__init__":
